@@ -608,6 +608,23 @@ def _run_wrapper(rec, rng, defn, name, dirpath, cpath, ppath, case):
         rec.check("both_equal_formula", ok,
                   None if ok else {"definition": case["d"], "through": "sum plugin of the C and the Python rendering", "step": step,
                                    "pars": wp, "observed": Iw, "formula_on_disk": exp, "Iq": txt(cur["iq"])[:300]})
+        # the two renderings through the SasView-style loader as well, after the other entry points have loaded them
+        from sasmodels import sasview_model
+        for rend, pth in (("c", cpath), ("python", ppath)):
+            try:
+                m_ = sasview_model.load_custom_model(pth)()
+                for kk, vv in base.items():
+                    m_.setParam(kk, vv)
+                m_.setParam("scale", scale)
+                m_.setParam("background", bg)
+                Isv = np.asarray(m_.evalDistribution(q1.copy()), float)
+                exps = scale*one + bg
+                oks = core.close(Isv, exps, 1e-10, 1e-12*float(np.max(np.abs(exps))))
+            except Exception as exc:
+                Isv, exps, oks = repr(exc)[:300], None, False
+            rec.check("both_equal_formula", oks,
+                      None if oks else {"definition": case["d"], "through": "SasView-style loader, %s rendering" % rend, "step": step,
+                                        "observed": Isv, "formula_on_disk": exps})
         rec.bucket("wrapper:" + step)
 
 
